@@ -47,6 +47,9 @@ def run(rep, tier, props):
         if r['rec'] is None or r['obs']:
             raise tlc.LibraryFailure('Interleave: the solo script of %s/%s does not run: %s' % (r['front'], r['slot'], r['obs']),
                                      [dict(sig='%s:interleave:solo-script-fails:%s' % (props[0], r['front']), detail=r)])
+        for k in ('solve1', 'solve2'):
+            if r['rec'][k].get('call_mismatch'):
+                _emit(rep, dict(sig='C12:interleave:call-differs-from-get:%s:%s' % (r['front'], k), prop='C12', what=r['rec'][k]['call_mismatch'], case=dict(solo=r['front'], slot=r['slot']), result=r), props)
         if any(r['rec'][k].get('obj') is None for k in ('solve1', 'solve2')):
             raise tlc.MachineryError('Interleave: solo script of %s/%s is not solved: %r' % (r['front'], r['slot'], r['rec']))
         ref[(r['front'], r['slot'])] = r['rec']
@@ -80,6 +83,8 @@ def run(rep, tier, props):
             for step in ('solve1', 'solve2'):
                 stats['solves_compared'] += 1
                 g, w = got.get(step), want[step]
+                if g is not None and g.get('call_mismatch'):
+                    _emit(rep, dict(sig='C12:interleave:call-differs-from-get:%s:%s' % (fr, step), prop='C12', what=g['call_mismatch'], **detail), props)
                 tol = TOL[fr]
                 if g is None or g.get('obj') is None or abs(g['obj'] - w['obj']) > 10 * tol * (1 + abs(w['obj'])) \
                         or max(abs(a - b) for a, b in zip(g['x'], w['x'])) > 100 * tol * (1 + max(abs(v) for v in w['x'])):
